@@ -136,6 +136,24 @@ Theorem C10_unsorted_walk_result_is_permutation : forall s1 s2 c,
 Proof. exact promote_permutation. Qed.
 Print Assumptions C10_unsorted_walk_result_is_permutation.
 
+(* the sorted() of the while / for handlers is defence only: the construct these handlers build (see walk_stmt: body walked
+   from [c], resp. from [c] + the loop variable) always satisfies the loop clause of the guard, because every name a block
+   newly declares is met as a declaration node by _collect_order - so even an unsorted walk of `promoted_set` never reached
+   the output in the fragment; the defect was confined to if/elif/else and try/except *)
+Theorem C10_loop_constructs_always_guarded : forall P body c,
+  guard (CLoop (flat_map decl_names (w_nodes (walk_block P body c)))
+               (new_decls c (w_ctx (walk_block P body c)))) = true.
+Proof. exact loop_guard_holds. Qed.
+Print Assumptions C10_loop_constructs_always_guarded.
+
+Theorem C10_unsorted_walk_of_a_loop_site_is_invisible : forall s1 s2 P body c,
+  perm_oracle s1 -> perm_oracle s2 ->
+  let r := walk_block P body c in
+  promote_with s1 (CLoop (flat_map decl_names (w_nodes r)) (new_decls c (w_ctx r))) =
+  promote_with s2 (CLoop (flat_map decl_names (w_nodes r)) (new_decls c (w_ctx r))).
+Proof. exact loop_site_independent. Qed.
+Print Assumptions C10_unsorted_walk_of_a_loop_site_is_invisible.
+
 (* the repair changed no output of a program whose every construct was inside the pre-repair guard ([o_ok]: every if / try
    branch contributes at most one not-yet-recorded new name, every new name of a loop body is met as a declaration node) *)
 Theorem C10_repair_conservative : forall s p,
